@@ -1,5 +1,5 @@
 NAME = 'P-data'
-PROPERTIES = ['C20', 'C15']
+PROPERTIES = ['C20', 'C15', 'C18']
 ENGINE = 'verus'
 CLASS = 'U'
 DOC = ('read_data (persistence/binary/data.rs) over an abstract reader: loading the row section of a (possibly damaged) binary file terminates and '
